@@ -21,7 +21,7 @@ PID = 'C07'
 BUDGET = {
     # tier: (random scenarios, random line-mode scenarios, systematic bases, max points per base)
     'quick': (400, 250, 3, 260),
-    'thorough': (9000, 6000, 16, 1200),
+    'thorough': (2500, 1800, 9, 400),
 }
 
 
